@@ -170,7 +170,7 @@ func Run(c *core.Ctx) core.FinishOpts {
 	// (3) typed grammar with edge literals
 	g := newGen(c.Rng("grammar"))
 	var grammarQ []string
-	for i := 0; i < c.Pick(450, 14000); i++ {
+	for i := 0; i < c.Pick(350, 14000); i++ {
 		q := g.query()
 		grammarQ = append(grammarQ, q)
 		add("grammar", "", q, nil, nil)
@@ -193,7 +193,7 @@ func Run(c *core.Ctx) core.FinishOpts {
 	for _, s := range seeds {
 		donors = append(donors, s.sql)
 	}
-	nMut := c.Pick(700, 26000)
+	nMut := c.Pick(600, 26000)
 	for i := 0; i < nMut; i++ {
 		var s *qcase
 		if i%4 == 0 && len(scen) > 0 {
@@ -263,8 +263,8 @@ func Run(c *core.Ctx) core.FinishOpts {
 			}
 		}
 		hrng.Shuffle(len(rest), func(a, b int) { rest[a], rest[b] = rest[b], rest[a] })
-		if len(rest) > 500 {
-			rest = rest[:500]
+		if len(rest) > 400 {
+			rest = rest[:400]
 		}
 		hostileAll = append(first, rest...)
 	}
